@@ -152,4 +152,4 @@ def r07_3(ctx):
 
 
 def run(ctx):
-    engine.run_rules(ctx, [hazard.r07_1, r07_2, r07_3, dt.r05_6, sd.r04_4, dt.r03_6, dt.r03_7])
+    engine.run_rules(ctx, [hazard.r07_1, r07_2, r07_3, dt.r05_6, dt.r05_7, sd.r04_4, dt.r03_6, dt.r03_7])
